@@ -85,6 +85,13 @@ def groups(tier, rng):
                 "after-last-chunk": (dict(maxline=lim), [b"EHLO x\r\n", b"MAIL FROM:<s@x>\r\n", b"RCPT TO:<r@x>\r\n", (b"BDAT 3 LAST\r\nab\n", dict(DATA=g.ddec()))]),
                 "after-data": (dict(maxline=lim), [b"EHLO x\r\n", b"MAIL FROM:<s@x>\r\n", b"RCPT TO:<r@x>\r\n", b"DATA\r\n", (b"hi\r\n.\r\n", dict(DATA=g.ddec()))]),
                 "after-rset-in-bdat": (dict(maxline=lim), [b"EHLO x\r\n", b"MAIL FROM:<s@x>\r\n", b"RCPT TO:<r@x>\r\n", (b"BDAT 3\r\nab\n", dict(DATA=g.ddec(ret="prop"))), b"RSET\r\n"]),
+                # the backend gives up in the middle of a chunk: the copy fails, the rest of the chunk is skipped
+                "after-failed-chunk": (dict(maxline=lim), [b"EHLO x\r\n", b"MAIL FROM:<s@x>\r\n", b"RCPT TO:<r@x>\r\n",
+                                                          (b"BDAT 8\r\nabcdefg\n", dict(DATA=g.ddec(want=2, rsz=1, ret=g.er(b"enough"))))]),
+                "after-failed-chunk-early": (dict(maxline=lim), [b"EHLO x\r\n", b"MAIL FROM:<s@x>\r\n", b"RCPT TO:<r@x>\r\n",
+                                                                (b"BDAT 8 LAST\r\nabcdefg\n", dict(DATA=g.ddec(want=0, ret=g.se(550, "5.7.1", b"no"))))]),
+                "after-failed-second-chunk": (dict(maxline=lim), [b"EHLO x\r\n", b"MAIL FROM:<s@x>\r\n", b"RCPT TO:<r@x>\r\n",
+                                                                 (b"BDAT 3\r\nab\n", dict(DATA=g.ddec(want=5, rsz=2, ret=g.er(b"enough")))), b"BDAT 8\r\nabcdefg\n"]),
             }
             for name, (cfgd, pre) in pre_sets.items():
                 c = g.Conv(cfgd)
@@ -120,6 +127,17 @@ def groups(tier, rng):
     for s in all_strings(alpha, 4 if tier == "quick" else 5):
         c = g.Conv(dict(maxline=64))
         c.add(b"EHLO x\r\n"); c.add(s + b"\r\n"); c.add(b"NOOP\r\n")
+        short.append(c.case(seg="one") + "\tTAG=cmdonly")
+    # letters whose upper-/lower-case form has another length in octets (dotless i, long s, U+2C65, Kelvin sign, German sharp s),
+    # and multi-octet letters in and around the verb: every index into a case-folded copy of the line must stay in range
+    fold = ["\u0131".encode(), "\u017f".encode(), "\u2c65".encode(), "\u212a".encode(), "\u00df".encode(), b"n", b"O", b" ", b"\xc4"]
+    for s in all_strings(fold, 4 if tier == "quick" else 5, 1):
+        c = g.Conv(dict(maxline=64))
+        c.add(b"EHLO x\r\n"); c.add(s + b"\r\n"); c.add(b"NOOP\r\n")
+        short.append(c.case(seg="one") + "\tTAG=cmdonly")
+    for verb in (b"no\xc4\xb1\xc5\xbf", b"\xc4\xb1\xc4\xb1\xc4\xb1\xc4\xb1 x", b"MA\xc4\xb1L FROM:<a@b>", b"ma\xc4\xb1l from:<a@b>", b"HELO \xc5\xbf", b"RCPT\xc4\xb1TO:<a@b>"):
+        c = g.Conv(dict(maxline=64))
+        c.add(b"EHLO x\r\n"); c.add(verb + b"\r\n"); c.add(b"NOOP\r\n")
         short.append(c.case(seg="one") + "\tTAG=cmdonly")
     # argument syntax: every short string over the characters the address/parameter parsers branch on
     args = []
